@@ -197,7 +197,9 @@ int main(int argc, char** argv)
             unsigned idx = next_index, oidx = next_index + 1, sidx = next_index + 2;
             next_index += 3;
             // out-of-range indices are rejected
-            unsigned bad = 4096 + static_cast<unsigned>(R.rng.below(1000));
+            // out-of-range indices: just past the end, and the far ones a negative "no line" value turns into
+            static const unsigned far[] = {0x7fffffffu, 0x80000000u, 0x80000008u, 0xfffffffeu, 0xffffffffu};
+            unsigned bad = R.rng.chance(40) ? far[R.rng.below(5)] : 4096 + static_cast<unsigned>(R.rng.below(1000));
             bool threw = false;
             try {
                 TripWireDetector d(bad);
